@@ -108,6 +108,8 @@ def run(prog: Program, L: Ledger) -> None:
 
     # ---- package-wide scan
     live = ("atoms", "context.atoms", "self.atoms", "self.context.atoms")
+    raw_writers = asetab.unconstrained_position_writers() - {"set_cell"}
+    L.assume("ASE Atoms methods writing positions without adjust_positions (computed from the installed source): " + ", ".join(sorted(raw_writers)))
     n_scan = 0
     for fi in prog.iter_functions():
         for n in walk_no_nested(fi.node):
@@ -136,6 +138,11 @@ def run(prog: Program, L: Ledger) -> None:
                         okr = a0.startswith("old_") or ".last_" in a0 or a0.startswith("self.last_")
                         L.check(okr, "K1", f"{fi.qualname}:apply_constraint=False", f"{fi.module.relpath}:{c.lineno}",
                                 f"`{norm(c)[:90]}` switches constraints off for a value that is not a snapshot", "constrained atoms move", norm(c)[:100])
+            if isinstance(c.func, ast.Attribute) and c.func.attr in raw_writers and norm(c.func.value) in live:
+                n_scan += 1
+                L.violation("K1", f"{fi.qualname}:unconstrained-{c.func.attr}", f"{fi.module.relpath}:{c.lineno}",
+                            f"`{norm(c)[:90]}` moves the live atoms through ASE's {c.func.attr}(), which writes the positions array directly: no constraint's adjust_positions runs",
+                            "fixed atoms move / FixCom's centre of mass drifts", norm(c)[:100])
     L.ok("K1", "package-scan", "src/quansino", f"{n_scan} writer sites scanned")
 
     # ---- K2
@@ -150,7 +157,7 @@ def run(prog: Program, L: Ledger) -> None:
     step0 = fb.methods.get("step")
     if step0 is None:
         raise AnalysisError("ForceBias.step missing")
-    step = flat(prog, step0, fb)
+    step = flat(prog, step0, fb, keep=("get_zeta", "calculate_trial_probability", "calculate_gamma"), public_methods=True)
     sbody = step.body()
 
     def top_index(node):
